@@ -22,6 +22,9 @@ CHECKS = {
  "C15": dict(level=MC, engine="graphwalk+tracecheck", technique="TLA+ ADT specs (ReorderBuffer.tla, PrintBuffer.tla, CircularBuffer.tla) model-checked by TLC; graph walk over every arrival order x drain point / put-clear sequence; trace validation of 200-serial permutations by TLC",
              text="TLC exhaustively checks the three specifications (emit-in-order-once, counters, flush ascending, window = last min(k,c) puts, reject outside 0..len-1; each with a negative control that must fail) for every arrival order of 4-5 serials with drain/flush/clear at every point and for ring capacities 1..3, emits every transition, and the real Buffer, PrintBuffer and CircularBuffer are driven through every (state, operation) pair; random permutations of 200 serials and long ring histories are validated by TLC.",
              note="each serial fed once per epoch; draining = exhausting the iterator; printed output captured through a StringIO; small-scope exhaustive, sampled beyond", ref="4 C15"),
+ "C20": dict(level=MC, engine="graphwalk+tracecheck", technique="TLA+ specs (TmpPool.tla with an exit-by-exception action enabled in every state of the body and child-process creation; FilePool.tla) model-checked by TLC; graph walk against a real directory inside a real with-statement; trace validation by TLC",
+             text="TLC exhaustively checks the specifications (paths distinct, listed = created-not-removed, nothing left after flush/exit/exit-by-exception, all handles open inside and closed outside; negative controls that skip the clean-up on the exception path must fail), emits every transition, and the real TmpPool (single- and multi-process, with files created by forked children) and FilePool are driven through every (state, operation) pair: operations run inside a real with-body, exceptions are thrown into that body, and the directory listing / handle.closed are compared after every step.",
+             note="private temporary directory; the body exception is an ordinary Exception; multi-process walk bounded to 2-3 files because every replay starts manager processes", ref="4 C20"),
 }
 PENDING = "check not built yet in this session (planned, see DESIGN.md section 4)"
 
